@@ -156,6 +156,23 @@ def main(argv):
     coverage.setdefault("events_observed", {k: v for k, v in sorted(merged["counters"].items())})
     if merged["samples"] and not coverage.get("samples"):
         coverage["samples"] = merged["samples"]
+    # which functions of the property's anchored files did the workload actually enter (sys.monitoring PY_START)
+    try:
+        anchors = []
+        with open(os.path.join(VERIF_DIR, "properties.jsonl")) as f:
+            for line in f:
+                rec = json.loads(line)
+                if rec["id"] == prop:
+                    anchors = rec["anchors"]["files"]
+        entered = {}
+        for fn in merged["sets"].get("functions_entered", ()):
+            file, _, func = fn.partition(":")
+            if file in anchors:
+                entered.setdefault(file, []).append(func)
+        coverage["anchored_functions_entered"] = {f: sorted(v)[:40] for f, v in sorted(entered.items())}
+        coverage["anchored_files_never_entered"] = sorted(set(anchors) - set(entered))
+    except Exception:
+        pass
     coverage["shards"] = len(specs)
     coverage["shards_completed"] = len(results)
     if merged["notes"]:
